@@ -27,6 +27,12 @@ import CookModel.Lemmas.CollectorShape
   `C06_statement` itself, and is decided on every run by the invariant oracle meanwhile.
   UPDATE: that lemma is now proved (`C06_parser_events_ok`, Lemmas/ClosingEvOK.lean and
   Lemmas/ClosingStream.lean), and with it `C06_holds : C06_statement`.
+  UPDATE 2: the clauses of the property that `RecipeInv` does not contain are proved for the returned
+  recipe as separate predicates and collected in `C06_holds_full`: `CookwareRefsOK`
+  (`C06_cookware_references`), `BacklinksSound` (`C06_backlinks_sound`, `C06_backlinks_no_duplicates`),
+  `StepRefsOK` / `SectionRefsOK` (`C06_step_reference_target`, `C06_section_reference_target`; they need
+  the parser-side lemma `C06_parser_sections_outside_blocks`), `RefNamesMatch`
+  (`C06_reference_name_matches`), `RelationsShaped` (`C06_relations_shaped`).
 -/
 namespace Cook
 variable {α : Type} [Arith α]
@@ -671,5 +677,34 @@ example : (parseEventsLoop exFoldEnv [] exFoldEvs {}).output.map
 example : (parseEventsLoop exFoldEnv [] exFoldEvs {}).diags.toList = [] := by rfl
 example : SectionsOutsideBlocks exFoldEvs :=
   ⟨_, rfl, _, rfl, _, rfl, _, rfl, _, rfl, _, rfl, _, rfl, _, rfl, _, rfl, _, rfl, _, rfl, _, rfl, _, rfl, _, rfl, trivial⟩
+
+/-! the hypothesis `SectionsOutsideBlocks` of `C06_intermediate_refs_of_events` is needed: with a
+    `Section` event between `Start` and `End` (events the parser never emits, all `EvOK`) the open step
+    is pushed into the NEW section while its `~1` target addresses position 0 of the old one -/
+private def exBadEvs : List (Ev Rat) := [
+  .start .step, .text (exTx 'b'), .stop .step,
+  .start .step,
+    .ingredient ⟨⟨⟨⟨Modifiers.REF⟩, ⟨0, 0⟩⟩, some ⟨⟨true, false, 1⟩, ⟨0, 0⟩⟩, Text.empty 0, none, none, none⟩, ⟨0, 0⟩⟩,
+    .«section» none,
+  .stop .step]
+example : (∀ ev ∈ exBadEvs, EvOK ev) ∧ ¬ SectionsOutsideBlocks exBadEvs ∧
+    ∀ c, (parseEventsLoop exFoldEnv [] exBadEvs {}).output = some c → ¬ StepRefsOK c := by
+  refine ⟨?_, ?_, ?_⟩
+  · intro ev hmem
+    simp only [exBadEvs, List.mem_cons, List.mem_nil_iff, or_false] at hmem
+    rcases hmem with rfl | rfl | rfl | rfl | rfl | rfl | rfl <;> simp [EvOK, Modifiers.contains]
+  · rintro ⟨_, h1, _, h2, _, h3, _, h4, _, h5, _, h6, _⟩
+    cases h1; cases h2; cases h3; cases h4; cases h5; cases h6
+  · intro c hc h
+    have e : ((parseEventsLoop exFoldEnv [] exBadEvs {}).output.map
+        fun c => (c.sections, c.ingredients[0]?.map (·.relation))) =
+        some ([⟨none, [.step ⟨[.text ['b']], 1⟩]⟩, ⟨none, [.step ⟨[.ingredient 0], 1⟩]⟩],
+              some ⟨.reference 0, some .step⟩) := by rfl
+    rw [hc] at e
+    simp only [Option.map_some, Option.some.injEq, Prod.mk.injEq] at e
+    obtain ⟨e1, e2⟩ := e
+    obtain ⟨ig, hig, hrel⟩ := Option.map_eq_some_iff.mp e2
+    have := (h 1 _ (by rw [e1]; rfl) 0 _ rfl 0 (by simp) ig hig 0 hrel).1
+    omega
 
 end Cook
